@@ -410,16 +410,32 @@ func c11Precedence(c *core.Ctx) {
 	for k := 0; k < 4; k++ {
 		data := gen.ParseInput(c.R, n, gen.InOpts{ValidPct: 35, AbsentPct: 25, WrongPct: 25, AltRep: true})
 		val := gen.ValueTree(c.R, n, gen.InOpts{ValidPct: 35, AbsentPct: 35}, false)
-		for levels := 0; levels < 4; levels++ {
+		for levels := 0; levels < 8; levels++ {
 			execLevel := levels&1 != 0
 			globalLevel := levels&2 != 0
+			// delegating: the execution formatter words some issues itself and hands the others to the global formatter
+			// (the fallback pattern of the configuration docs); with i18n installed as the global formatter
+			delegating := levels&4 != 0
+			if delegating && !execLevel {
+				continue
+			}
 			conf.IssueFormatter = saved
+			if delegating && !globalLevel {
+				i18n.SetLanguagesErrsMap(map[string]zconst.LangMap{"en": en.Map, "es": es.Map}, "es")
+			}
 			if globalLevel {
 				conf.IssueFormatter = func(e *z.ZogIssue, ctx z.Ctx) { e.SetMessage("GLOBAL:" + e.Code) }
 			}
+			delegated := func(code string) bool { return delegating && (code == "required" || code == "coerce" || code == "not_nil") }
 			var opts []z.ExecOption
 			if execLevel {
-				opts = append(opts, z.WithIssueFormatter(func(e *z.ZogIssue, ctx z.Ctx) { e.SetMessage("EXEC:" + e.Code) }))
+				opts = append(opts, z.WithIssueFormatter(func(e *z.ZogIssue, ctx z.Ctx) {
+					if delegated(e.Code) {
+						conf.IssueFormatter(e, ctx)
+						return
+					}
+					e.SetMessage("EXEC:" + e.Code)
+				}))
 			}
 			for _, mode := range []ref.Mode{ref.Parse, ref.Validate} {
 				var exp *ref.Result
@@ -452,7 +468,7 @@ func c11Precedence(c *core.Ctx) {
 						msg, testLevelSeen = *x.Opts.Message, true
 					case x.Opts.MsgFunc != nil:
 						msg, testLevelSeen = *x.Opts.MsgFunc, true
-					case execLevel:
+					case execLevel && !delegated(x.Code):
 						msg = "EXEC:" + x.Code
 					case globalLevel:
 						msg = "GLOBAL:" + x.Code
